@@ -35,3 +35,27 @@ package dnsmsg
 //@   requires r != nil && validRRs(r.Answer)
 //@   modifies dns.RR_Header.Ttl
 //@   loop 1 invariant -1 <= #i && #i < len(r.Answer)
+
+// ---------------------------------------------------------------------------
+// C05: reading the client-subnet option; a malformed one is an error.
+
+//@ import netip net/netip
+//@ import netutil github.com/AdguardTeam/golibs/netutil
+
+//@ func ecsData
+//@   property C05
+//@   requires esn != nil
+//@   modifies nothing
+//@   ensures unknown-family-is-malformed: esn.Family != 1 && esn.Family != 2 ==> err != nil
+//@   ensures scope == (err == nil ? esn.SourceScope : 0)
+//@   ensures err != nil ==> subnet == zero(netip.Prefix)
+
+//@ func ECSFromMsg
+//@   property C05
+//@   requires msg != nil && (forall i int :: 0 <= i && i < len(msg.Extra) && isOPT(msg.Extra[i]) ==> optAt(msg, i) != nil && (forall j int :: 0 <= j && j < len(optAt(msg, i).Option) && isptr(optAt(msg, i).Option[j], dns.EDNS0_SUBNET) ==> ref(optAt(msg, i).Option[j]) != 0))
+//@   modifies nothing
+//@   ensures malformed-option-is-a-bad-ecs-error: err != nil ==> istype(err, BadECSError) && subnet == zero(netip.Prefix)
+//@   loop 1 invariant -1 <= #i && #i < len(opt.Option)
+
+// errors.As finds a BadECSError value (it is assignable to the target).
+//@ axiom bad-ecs-error-is-found-by-errors-as: forall e error :: istype(e, BadECSError) ==> errAs(e, ptrtag(BadECSError))
